@@ -43,7 +43,7 @@ def get (fs : FS) (p : FPath) : Option Node :=
   if p = [] then some .folder else fs.nodes.lookup p
 
 def set (fs : FS) (p : FPath) (n : Option Node) : FS :=
-  ⟨(match n with | some x => [(p, x)] | none => []) ++ fs.nodes.filter (fun e => e.1 ≠ p)⟩
+  ⟨(match n with | some x => [(p, x)] | none => []) ++ fs.nodes.filter (fun e => !(e.1 == p))⟩
 
 def childrenOf (fs : FS) (dir : FPath) : List (FPath × Node) :=
   fs.nodes.filter fun e => e.1 ≠ [] ∧ e.1.dropLast = dir
@@ -85,7 +85,7 @@ def createTrunc (fs : FS) (p : FPath) : OpR FS :=
 /-- `write_all` through the handle that was opened on `p` -/
 def append (fs : FS) (p : FPath) (data : List UInt8) : OpR FS :=
   match fs.get p with
-  | some (.file b _) => .ok (fs.set p (some (.file (b ++ data) .fresh)))
+  | some (.file b m) => .ok (fs.set p (some (.file (b ++ data) (if data = [] then m else .fresh))))   -- `write_all(&[])` writes nothing
   | _ => .escape
 
 /-- `filetime::set_file_mtime` (follows links) -/
